@@ -23,7 +23,7 @@ func init() {
 			{"C11/normalise-before-dispatch", func(c *Ctx) { ruleC11Normalise(c, "C08/equality-normalises") }},
 		},
 		Explanation: "Decides representation independence structurally: the type classifier and the number extractor recognise the same numeric sources (CanInt, CanUint, CanFloat, json.Number); each source is extracted with its own accessor and exact setter with no numeric conversion and no float parsing of decimal text; the evaluator strips pointers and interfaces in one loop so that afterwards the instance kind is neither; every reflect map access with a key built from a Go string, or taken from another map, converts the key to the map's key type; the string, array and object keyword groups run only under the kinds String, {Array,Slice} and Map; equality strips wrappers on both sides before comparing kinds. It does NOT compare verdicts of concrete values across representations.",
-		NotDecided: []string{"verdict equality for a concrete value in a concrete representation", "float32 rounding", "struct instances (outside the property's domain)"},
+		NotDecided:  []string{"verdict equality for a concrete value in a concrete representation", "float32 rounding", "struct instances (outside the property's domain)"},
 	})
 	register(&Property{
 		ID: "C11",
@@ -35,7 +35,7 @@ func init() {
 			{"C11/key-assignable", func(c *Ctx) { ruleKeyAssignable(c, "C11/key-assignable") }},
 		},
 		Explanation: "Decides the structure of Equal: both operands are stripped of pointers and interfaces before any comparison (kind sets at the kind-mismatch exit exclude Pointer and Interface), numbers are decided first by exact rational comparison through the shared extractor with no float or integer extraction anywhere in the closure of Equal, a number never equals a non-number, an Array/Slice kind mismatch is compared element-wise, every composite arm compares lengths before elements, identity shortcuts come after the length test, a missing key is tested with IsValid before recursing, and the kind dispatch panics only on kinds outside the JSON-shaped domain. It does NOT prove reflexivity, symmetry or transitivity as algebraic laws.",
-		NotDecided: []string{"reflexivity/symmetry/transitivity as laws over values", "correctness of each arm beyond the listed structural clauses"},
+		NotDecided:  []string{"reflexivity/symmetry/transitivity as laws over values", "correctness of each arm beyond the listed structural clauses"},
 	})
 	register(&Property{
 		ID: "C12",
@@ -51,7 +51,7 @@ func init() {
 			}},
 		},
 		Explanation: "Decides that enum, const and uniqueItems are decided by the equality function: the enum/const failure exits depend only on its results on (keyword value, instance); the uniqueItems failure is guarded by equality of two items, every item is recorded in its hash bucket on every non-failing path and is compared with every member of its bucket; the hasher is consistent with equality (numbers only through the shared extractor, wrappers invisible, Array and Slice in one arm with an unconditional length prefix, no write depending on Type or Kind, map entries hashed after a sort of the keys); the per-call seed is drawn once outside the item loop and flows only into SetSeed. The equality clauses of C11 are re-checked here because enum/const/uniqueItems inherit them. It does NOT decide collision behaviour of maphash.",
-		NotDecided: []string{"collision behaviour of hash/maphash", "that unequal values are told apart by the hash (only a quality property)"},
+		NotDecided:  []string{"collision behaviour of hash/maphash", "that unequal values are told apart by the hash (only a quality property)"},
 	})
 }
 
